@@ -6,6 +6,7 @@ import numpy as np
 import blocks_common as B
 import common as C
 import verde as vd
+from props import large as L
 
 ID = "C09"
 TRANSLATED = "blocks"      # Gen/Blocks.lean (BlockReduce.filter / _block_coordinates, pinned) is regenerated from /repo and bridged to the model in Props/C09.lean
@@ -28,6 +29,11 @@ def mk(coords, shape2d, data, weights, region, shape, spacing, adjust, red, cent
 
 
 def corpus():
+    return _corpus() + [dict(L.case("blocksum_big_ints", ["int64"], "corpus-64-bit-integers"), fn="rel"),
+                       dict(L.case("blocksum_big_ints", ["uint64"], "corpus-64-bit-integers"), fn="rel")]
+
+
+def _corpus():
     es = [0.5, 1.5, 2.5, 3.5, 0.25, 3.75, 0.75]
     ns = [0.5, 0.5, 1.5, 1.5, 0.25, 1.75, 0.75]
     up = [10.0, 20.0, 30.0, 40.0, 50.0, 60.0, 70.0]
@@ -40,6 +46,13 @@ def corpus():
         cs.append(mk([es, ns], [7], [d1], None, [0, 4, 0, 2], None, [1.0, 2.0], "spacing", red, False, True, "corpus"))
     cs.append(mk([es, ns, up], [7], [d1, d2], [w1, w2], [0, 4, 0, 2], None, [1.0, 2.0], "spacing", "average", False, False, "corpus-weights"))
     cs.append(mk([es, ns, up], [7], [d1, d2], None, None, (2, 2), None, "spacing", "median", True, False, "corpus-centre"))
+    # readings and weights stored in narrow integer types (the weighted mean is a real number all the same)
+    di = [30000.0, 29000.0, -31000.0, 32000.0, 30500.0, 32767.0, 28000.0]
+    wi = [200.0, 100.0, 250.0, 255.0, 180.0, 90.0, 220.0]
+    cs.append(mk([es, ns], [7], [di], [wi], [0, 4, 0, 2], None, [2.0, 2.0], "spacing", "average", False, True, "corpus-narrow-int"))
+    cs.append(mk([es, ns], [7], [di, [v / 250.0 for v in di]], [wi, wi[::-1]], [0, 4, 0, 2], None, [4.0, 2.0], "spacing", "average", True, True, "corpus-narrow-int"))
+    cs.append(mk([es, ns], [7], [[100.0, 120.0, 90.0, 127.0, 110.0, 125.0, 101.0]], [[3.0, 2.0, 1.0, 3.0, 2.0, 2.0, 1.0]], [0, 4, 0, 2], None, [4.0, 2.0], "spacing", "average",
+                 False, True, "corpus-narrow-int8"))
     cs.append(mk([es, ns], [7], [d1], [w1], [0, 4, 0, 2], (1, 3), None, "spacing", "average", True, True, "corpus-single-row"))
     # a sparse survey on a fine block grid: far more blocks than points, occupied blocks with large indices
     import random
@@ -135,6 +148,9 @@ def generate(rng, tier):
 
 
 def impl(case):
+    if case["fn"] == "rel":
+        r = C.call(L.run, case["args"])
+        return r if C.is_err(r) else ["rel", r]
     if case["fn"] == "large":
         r = C.call(_large, case["args"])
         return r if C.is_err(r) else ["large", r]
@@ -147,6 +163,10 @@ def impl(case):
     # integer data)
     ds = tuple(np.asarray(d).astype("int64" if (len(data[0]) + i) % 2 else "int32") if all(float(v).is_integer() for v in data[i]) else d
                for i, d in enumerate(ds))
+    if case["kind"].startswith("corpus-narrow-int"):
+        small = case["kind"].endswith("8")
+        ds = tuple(np.asarray(d).astype("int8" if small else "int16") if all(float(v).is_integer() for v in data[i]) else d for i, d in enumerate(ds))
+        ws = tuple(np.asarray(w).astype("int8" if small else "uint8") for w in ws)
     for a in cs + ds + (ws or ()):
         a.setflags(write=False)
     if len(case["op"]) % 3 == 0:
@@ -185,6 +205,8 @@ def impl(case):
 
 
 def compare(case, io, mo):
+    if case["fn"] == "rel":
+        return "diff:implementation failed: " + io[1] if C.is_err(io) else "ok"
     if case["fn"] == "large":
         return "diff:implementation failed: " + io[1] if C.is_err(io) else "ok"
     r = C.std_compare(io, mo, tol=1e-11)
@@ -214,6 +236,8 @@ def _reduce(red, vals, ws=None):
 
 
 def oracle(case, io):
+    if case["fn"] == "rel":
+        return (io[1] or None) if not C.is_err(io) else "failed: " + io[1]
     if case["fn"] == "large":
         if C.is_err(io):
             return "BlockReduce failed on a large survey: " + io[1]
@@ -264,6 +288,8 @@ def oracle(case, io):
 
 
 def nontrivial(case, io):
+    if case["fn"] == "rel":
+        return not C.is_err(io)
     if C.is_err(io):
         return False
     if case["fn"] == "large":
